@@ -81,7 +81,7 @@ class Ctx:
             with open(modf, 'w') as f:
                 f.write(txt)
             shutil.copyfile(os.path.join(REPO, 'v4', 'go.sum'), self.path('alt.sum'))
-            cmd += ['-modfile', modf]
+            cmd += ['-modfile', modf, '-trimpath']     # path-independent objects: the build cache does not grow with every scratch tree
         if race:
             cmd.insert(2, '-race')
         cmd.append('./cmd/vh')
